@@ -25,6 +25,7 @@ type Generator struct {
 	Reserved  []string
 	PkgIdent  map[string]string
 	Problems  []string
+	depth     int // recursion guard for predicates that call predicates
 }
 
 // CallTypeEntry is one entry of gorumsCallTypesInfo.
@@ -210,8 +211,77 @@ func (g *Generator) ParseFormula(e ast.Expr) (Formula, error) {
 		case "IsStreamingClient":
 			return fStreamC{}, nil
 		}
+		// a predicate of the package over the same method: its body
+		if id, ok := x.Fun.(*ast.Ident); ok && len(x.Args) == 1 {
+			if fd := g.funcDecl(id.Name); fd != nil && fd.Type.Params.NumFields() == 1 && g.depth < 6 {
+				g.depth++
+				f, err := g.formulaOfStmts(fd.Body.List, 0)
+				g.depth--
+				return f, err
+			}
+		}
 	}
 	return nil, fmt.Errorf("expression form not in the option-predicate language: %s", types.ExprString(e))
+}
+
+// FuncDecl finds a package-level function of the generator by name.
+func (g *Generator) FuncDecl(name string) *ast.FuncDecl { return g.funcDecl(name) }
+
+func (g *Generator) funcDecl(name string) *ast.FuncDecl {
+	for _, f := range g.Pkg.Syntax {
+		for _, d := range f.Decls {
+			if fd, ok := d.(*ast.FuncDecl); ok && fd.Recv == nil && fd.Name.Name == name && fd.Body != nil {
+				return fd
+			}
+		}
+	}
+	return nil
+}
+
+// formulaOfStmts turns a loop-free predicate body - returns, guard clauses,
+// if/else - into a formula.
+func (g *Generator) formulaOfStmts(list []ast.Stmt, depth int) (Formula, error) {
+	if depth > 8 {
+		return nil, fmt.Errorf("predicate body nested too deeply")
+	}
+	if len(list) == 0 {
+		return nil, fmt.Errorf("predicate body can fall off its end")
+	}
+	switch x := list[0].(type) {
+	case *ast.ReturnStmt:
+		if len(x.Results) != 1 {
+			return nil, fmt.Errorf("predicate returns %d values", len(x.Results))
+		}
+		return g.ParseFormula(x.Results[0])
+	case *ast.IfStmt:
+		if x.Init != nil {
+			return nil, fmt.Errorf("if with an init statement in a predicate body")
+		}
+		c, err := g.ParseFormula(x.Cond)
+		if err != nil {
+			return nil, err
+		}
+		thenList := append(append([]ast.Stmt{}, x.Body.List...), list[1:]...)
+		t, err := g.formulaOfStmts(thenList, depth+1)
+		if err != nil {
+			return nil, err
+		}
+		elseList := list[1:]
+		switch e := x.Else.(type) {
+		case *ast.BlockStmt:
+			elseList = append(append([]ast.Stmt{}, e.List...), list[1:]...)
+		case *ast.IfStmt:
+			elseList = append([]ast.Stmt{e}, list[1:]...)
+		}
+		f, err := g.formulaOfStmts(elseList, depth+1)
+		if err != nil {
+			return nil, err
+		}
+		return fOr{fAnd{c, t}, fAnd{fNot{c}, f}}, nil
+	case *ast.BlockStmt:
+		return g.formulaOfStmts(append(append([]ast.Stmt{}, x.List...), list[1:]...), depth+1)
+	}
+	return nil, fmt.Errorf("statement form not in the option-predicate language: %T", list[0])
 }
 
 func (g *Generator) extArgs(a ast.Expr, variadic bool) ([]string, error) {
@@ -419,19 +489,24 @@ func (g *Generator) parseCallTypes(cl *ast.CompositeLit) []*CallTypeEntry {
 					e.OutPrefix, _ = unquote(bl)
 				}
 			case "chkFn":
-				if fl, ok := fkv.Value.(*ast.FuncLit); ok && len(fl.Body.List) == 1 {
-					if rs, ok := fl.Body.List[0].(*ast.ReturnStmt); ok && len(rs.Results) == 1 {
-						f, err := g.ParseFormula(rs.Results[0])
-						if err != nil {
-							e.ChkErr = err.Error()
-						} else {
-							e.Chk = f
-						}
-					} else {
-						e.ChkErr = "chkFn body is not a single return"
+				var body *ast.BlockStmt
+				switch v := fkv.Value.(type) {
+				case *ast.FuncLit:
+					body = v.Body
+				case *ast.Ident:
+					if fd := g.funcDecl(v.Name); fd != nil {
+						body = fd.Body
 					}
+				}
+				if body == nil {
+					e.ChkErr = "chkFn is neither a function literal nor a function of the package"
+					break
+				}
+				f, err := g.formulaOfStmts(body.List, 0)
+				if err != nil {
+					e.ChkErr = err.Error()
 				} else {
-					e.ChkErr = "chkFn is not a single-statement function literal"
+					e.Chk = f
 				}
 			case "nestedCallType":
 				if ncl, ok := fkv.Value.(*ast.CompositeLit); ok {
